@@ -566,7 +566,69 @@ def build_member(kind: str, ctx: list[str], member: str, base0: Any,
         comp = {"n+1": lambda: n + 1, "1+n": lambda: 1 + n, "2n": lambda: 2 * n,
                 "n+n": lambda: n + n, "nt+1": lambda: n.tagged(foo()) + 1}[member[4:]]()
         return in_ctx(ctx, replace(base0, shape=(comp,)))
+    if member.startswith("tags") and member[4:].isdigit():
+        # several tags of different classes with seed-dependent hashes
+        from . import eqtags
+        return in_ctx(ctx, replace(base0, tags=base0.tags | eqtags.several(int(member[4:]))))
+    if member == "axtags3":
+        from pytato.array import Axis
+
+        from . import eqtags
+        ax0 = base0.axes[0] if len(base0.axes) else Axis(frozenset())
+        return in_ctx(ctx, replace(base0, axes=(Axis(ax0.tags | eqtags.several(3, "x")),
+                                                *base0.axes[1:])))
+    if member == "params5":
+        return in_ctx(ctx, replace(base0, parameters=base0.parameters
+                                   | {"pc", "pd", "pe"}))
+    if member.startswith("der:"):
+        return in_ctx(ctx, _derive(kind, member, base0))
     raise MachineryError(f"the catalogue cannot build member {member}")
+
+
+def _derive(kind: str, member: str, base0: Any) -> Any:
+    """Members obtained from the ALREADY HASHED AND KEYED base through the
+    public derivation API (tagged / without_tags / with_tagged_axis / copy).
+    Where the API refuses (e.g. tagging a NamedCallResult is illegal) the
+    structurally identical object is built with dataclasses.replace, so the
+    member always is what its alias says."""
+    alias = ALIASES[member]
+    try:
+        if member == "der:tagged":
+            return base0.tagged(foo())
+        if member == "der:copy":
+            return base0.copy(tags=base0.tags | {foo()})
+        if member == "der:axis":
+            return base0.with_tagged_axis(0, foo())
+        if member == "der:untagged":
+            t = base0.tagged(foo())
+            safe_hash(t)
+            keyof(t)               # the intermediate object is hashed and keyed too
+            return t.without_tags(foo())
+    except Exception:       # noqa: BLE001
+        pass
+    if alias == "base":
+        return replace(base0, tags=frozenset(base0.tags))
+    f = alias[4:]
+    return replace(base0, **{f: _alt(kind, f, base0)})
+
+
+# members added in Python; ALIASES: the generated member they must be
+# structurally identical to (None / absent: different from every other member)
+ALIASES = {"der:tagged": "mut:tags", "der:copy": "mut:tags", "der:axis": "mut:axes",
+           "der:untagged": "base"}
+
+
+def key_members(members: list[str]) -> list[str]:
+    """Extra members for the persistent-key check, by the fields the kind has
+    (read off the generator's member list)."""
+    out = []
+    if "mut:tags" in members:
+        out += ["der:tagged", "der:untagged", "der:copy", "tags2", "tags3", "tags5"]
+    if "mut:axes" in members:
+        out += ["der:axis", "axtags3"]
+    if "mut:parameters" in members:
+        out += ["params5"]
+    return out
 
 
 SYM_MEMBERS = {k: ["sym:n+1", "sym:1+n", "sym:2n", "sym:n+n", "sym:nt+1"]
